@@ -698,9 +698,14 @@ func c07Gen(tier string, rng *rand.Rand, emit func(interface{})) {
 				left -= k
 			}
 		}
+		if len(t) < 2 {
+			t = nil // a single rank (everything tied) is not a distribution UDist supports: it panics
+		}
 		d := stats.UDist{N1: n1, N2: n2, T: t}
 		var levels []float64
 		if pan, _ := catch(func() {
+			d.CDF(0)
+			d.CDF(float64(n1 * n2))
 			for j := 0; j < 4; j++ {
 				u := float64(rng.Intn(2*n1*n2+1)) / 2
 				c := d.CDF(u)
